@@ -1,7 +1,8 @@
 #!/usr/bin/env python3
 """bin/check Cxx [--tier quick|thorough] [--replay file]   (DESIGN.md §2.7)
 
- 1 regenerate the generated Lean model from /repo (translator, tie 1)
+ 1 regenerate the generated Lean model from /repo (translator, tie 1); optional `mod.pre_build(ctx)`
+   hook of the property module for further translators (e.g. harness/py2lean_asm.py for C07/C08)
  2 build the property's theorem modules and the driver (lake; Lean kernel checks the proofs)
  3 audit: axioms of every theorem of the property's namespace; forbidden-token grep
  4 correspondence (tie 2): generated model / hand model vs the real code
@@ -295,6 +296,10 @@ def run_check(ctx, mod):
     fcntl.flock(lockf, fcntl.LOCK_EX)
     try:
         gen = regenerate(ctx) if getattr(mod, 'USES_GEN', True) else True
+        if hasattr(mod, 'pre_build'):
+            # optional per-property hook (inside the lock, before the build): further translators that
+            # regenerate Lean sources from /repo; a refusal is appended to ctx.broken by the hook
+            mod.pre_build(ctx)
         b = build(ctx, mod.LEAN_MODULES, gen_ok=bool(gen))
         ok_mods = [m for m in mod.LEAN_MODULES if b.get(m, (False,))[0]]
         if ok_mods:
